@@ -112,6 +112,11 @@ def generate(tier, rng):
             yield f'sh.parse.pl {hexs(bytes(t))}'
             yield f'sh.parse.ll {hexs(bytes(t))}'
             if rng.random() < 0.3: yield f'sh.parse.twice {hexs(bytes(t))}'
+    # separators INSIDE quoted strings and byte sequences (a parser that splits the input at ',' or ';' first gets these wrong)
+    for v in [b'label;note="a,b"', b'a;s="1, 2" , b', b'label;cert-url="https://example.com/cert?ids=1,2";x=1', b'label;note=","', b'a;s=";";t=1', b'a;s="x;y=1", b;z', b'"a,b";"c;d"', b'"a,b", "c"',
+              b'a;s="\\",b"', b'a;s="\\\\", b', b'a;b=*YSxi*', b'x;s=" , ";t']:
+        yield f'sh.parse.pl {hexs(v)}'
+        yield f'sh.parse.ll {hexs(v)}'
     # repeated parameter names: with / without values, adjacent or not (must all be refused by the parser)
     for v in [b'label;n;n', b'label;n;n=5', b'label;n=5;n', b'label;n=1;n=2', b'a;x=1, b;k;y=2;k', b'l;n;m;n', b'l;n;m=1;n=2', b'a;k;k;k', b'a;k="";k', b'a;k=**;k=**', b'a, a', b'a;n, a;n']:
         yield f'sh.parse.pl {hexs(v)}'
